@@ -20,7 +20,7 @@ func init() {
 			"(second hex argument, first is the token) and, on the same shard, the value written to the new holder; every success return is cut by the write of constant 0 to the old counter and by the call that removes the create role from the old holder's list; " +
 			"the new holder gets the role. The routine may read the counter more than once and reset it in several branches: a read whose value goes to the new holder or into the message must not be able to follow the reset, the resets (removals) together lie on every successful path at every call level, and with the new holder in the same shard counter write and role addition lie on every successful path. R3 (next owner): the counter is set to the number decoded from Arguments[1] and the create role is added. Does NOT decide: uniqueness over histories (late or duplicated delivery), wrap-around at 2^64.",
 		Trusted: []string{"A-deps", "single-creator discipline of the protocol"},
-		Rules:   []func(*Ctx){c07r1, c07r2, c07r4},
+		Rules:   []func(*Ctx){c07r1, c07r2, c07r4, c07r5},
 	})
 }
 
@@ -1123,4 +1123,42 @@ func c07r4(c *Ctx) {
 	c.shareRule(c03r1, "C03-R1", "C07-R4", "every effect of ESDTNFTCreate is cut by the create-role check on the sender", func(o Oblig) bool {
 		return strings.HasPrefix(o.Construct, "ESDTNFTCreate") || strings.Contains(o.Func, "esdtNFTCreate)")
 	})
+}
+
+// c07r5: the counter has exactly two kinds of writers — the create function (read + 1) and the role hand-over (reset at
+// the old holder, install at the new one). Any other built-in function that stores under ELRONDnonce‖token (a role
+// removal that "tidies up" the entry, a wipe, a burn of the last piece) lowers the counter below a nonce already issued:
+// when the role comes back, issued nonces are issued again.
+func c07r5(c *Ctx) {
+	const rule = "C07-R5"
+	c.Rule(rule, "the nonce counter is written only below ESDTNFTCreate and ESDTNFTCreateRoleTransfer", 1)
+	allowed := map[string]bool{"ESDTNFTCreate": true, "ESDTNFTCreateRoleTransfer": true}
+	n := 0
+	for _, r := range c.P.Registrations() {
+		if r.Entry == nil {
+			continue
+		}
+		seen := map[string]int{}
+		for _, ns := range nonceSites(c.P, r.Entry) {
+			if !ns.write {
+				continue
+			}
+			n++
+			construct := r.Key + ": write of the counter of " + ns.token + " in " + ns.s.Chain()
+			seen[construct]++
+			if k := seen[construct]; k > 1 {
+				construct += fmt.Sprintf(" #%d", k)
+			}
+			if allowed[r.Key] {
+				c.OK(rule, FuncName(ns.s.In.Parent()), construct, c.P.InstrPos(ns.s.In), "one of the two functions that own the counter")
+			} else {
+				c.FailX(Oblig{Rule: rule, Func: FuncName(ns.s.In.Parent()), Construct: construct, Pos: c.P.InstrPos(ns.s.In), Kind: "violation",
+					Detail:   r.Key + " stores " + ns.val + " under the nonce-counter key of " + ns.acct + ": the record of the highest nonce issued is changed by a function that neither creates nor hands the create role over — a later create continues below nonces already issued",
+					Expected: "the counter entry is written only by ESDTNFTCreate (previous + 1) and ESDTNFTCreateRoleTransfer (reset / install)"})
+			}
+		}
+	}
+	if n == 0 {
+		c.Anchor(rule, "a write under the nonce-counter key below an entry point")
+	}
 }
